@@ -138,8 +138,18 @@ def run_case(case):
     sizes = (0, 1, 3, 100, 101, 999, 1000, 1001, 1500, 2001) if rng.random() < 0.15 else (0, 1, 3, 20, 100, 101)
     if case.get('big'):
         nres, sizes = 2, (10300,)
-    names, fields, tables = make_pkg(rng, nres, sizes, same_schema=(fam == 'duplicate_alias'))
+    # several resources described by ONE schema object (load((descriptor, iterators)) with a shared schema dict, or
+    # update_resource(None, schema=...)): a step must not edit the descriptor of resources it did not select through it
+    shared_schema = fam == 'concatenate' and not case.get('big') and \
+        boot.rng(case['seed'], 'C16', 'shared', case['idx']).random() < 0.25
+    names, fields, tables = make_pkg(rng, nres, sizes, same_schema=(fam == 'duplicate_alias' or shared_schema))
     srcs = lambda: [lab.source(n, gen.schema_fields(fields[n]), tables[n]) for n in names]   # noqa: E731
+    if shared_schema:
+        def srcs():
+            one_schema = {'fields': gen.schema_fields(fields[names[0]])}
+            desc = {'resources': [{'name': n, 'path': n + '.csv', 'profile': 'tabular-data-resource',
+                                   'schema': one_schema} for n in names]}
+            return [d.load((desc, [iter(copy.deepcopy(tables[n])) for n in names]), strip=False)]
     exp_order = list(names)
     exp = {n: ('same', n) for n in names}      # name -> ('same', src) | ('rows', rows, fieldtypes|None)
     steps = []
@@ -192,6 +202,17 @@ def run_case(case):
         if rng.random() < 0.4:
             mapping['only_target'] = ['nonexistent']
             types['only_target'] = 'string'
+        if shared_schema:
+            cov['config']['concatenate/resources_share_one_schema_object'] = 1
+            cfg['shared_schema_object'] = True
+        if boot.rng(case['seed'], 'C16', 'nullrows', case['idx']).random() < 0.2:
+            # rows whose mapped cells are all null are rows all the same
+            for n in sel:
+                for r in tables[n][::3]:
+                    for k in list(r):
+                        r[k] = None
+            cov['config']['concatenate/rows_with_all_mapped_cells_null'] = 1
+            cfg['all_null_rows'] = True
         tname = rng.choice(['concat', 'merged'])
         target = {'name': tname, 'path': tname + '.csv'} if rng.random() < 0.7 else {}
         if not target:
@@ -221,6 +242,22 @@ def run_case(case):
             exp_order = names[:first] + [tname] + [n for n in names[first:] if n not in sel]
             exp = {n: ('same', n) for n in exp_order if n != tname}
             exp[tname] = ('rows', rows, types)
+            if boot.rng(case['seed'], 'C16', 'partial', case['idx']).random() < 0.25:
+                # a later step reads only the first two rows of the concatenated resource: the resources after it are
+                # still their own
+                import itertools
+
+                def head_of_target(package):
+                    yield package.pkg
+                    for res in package:
+                        if res.res.name == tname:
+                            yield itertools.islice(res, 2)
+                        else:
+                            yield res
+                steps.append(head_of_target)
+                exp[tname] = ('rows', rows[:2], types)
+                cfg['then_read_only_2_rows_of'] = tname
+                cov['config']['concatenate/then_target_read_partially'] = 1
     elif fam in ('duplicate', 'duplicate_alias'):
         src = rng.choice(names)
         to_end = rng.random() < 0.5
